@@ -1,4 +1,6 @@
 import Fdo.Proto.TO1
+import Fdo.Cbor.TypedProofs
+import Fdo.Gen.Schemas
 import Fdo.Facts
 /-
 C07 — TO1 releases the registered redirect, unmodified, only to the proven device.
@@ -137,5 +139,21 @@ theorem code_facts :
     Fdo.Facts.allBefore "TO1Server.rvRedirect" ["TO1ProofNonce", "Equal", "RVBlob", "DevicePublicKey", "Verify"] "Tag" = true ∧
     Fdo.Facts.before "TO1Server.rvRedirect" "DevicePublicKey" "Verify" = true ∧
     Fdo.Facts.before "TO1Server.helloRVAck" "RVBlob" "SetTO1ProofNonce" = true := by decide +kernel
+
+/-- **The blob handed out is the blob registered, and its voucher the voucher registered**: what the
+rendezvous server stores (the tagged COSE_Sign1 over `To1d`, the voucher) is, after `Marshal` into the store
+and `Unmarshal` out of it, the same value — headers, payload, signature, every voucher entry — so the
+owner signature the device checks is over exactly what the owner signed (C11's typed round trip on the
+regenerated schemas; `conf`: within the codec's limits, header labels in encoding order). -/
+theorem registered_blob_survives_storage (ok : Fdo.Cbor.CertOracle) (v : Fdo.Cbor.Val) (b : Bytes)
+    (hl : b.length < 18446744073709551616) :
+    (Fdo.Cbor.marshalS Fdo.Gen.Schemas.s_Sign1Tag_To1d_ v = some b →
+      Fdo.Cbor.conf ok 10000 Fdo.Cbor.maxDepth Fdo.Gen.Schemas.s_Sign1Tag_To1d_ v = true →
+      Fdo.Cbor.unmarshalS ok Fdo.Gen.Schemas.s_Sign1Tag_To1d_ b = some v) ∧
+    (Fdo.Cbor.marshalS Fdo.Gen.Schemas.s_Voucher v = some b →
+      Fdo.Cbor.conf ok 10000 Fdo.Cbor.maxDepth Fdo.Gen.Schemas.s_Voucher v = true →
+      Fdo.Cbor.unmarshalS ok Fdo.Gen.Schemas.s_Voucher b = some v) :=
+  ⟨fun hm hc => Fdo.Cbor.unmarshalS_marshalS ok _ v b (by decide +kernel) (by decide +kernel) hm hc hl,
+   fun hm hc => Fdo.Cbor.unmarshalS_marshalS ok _ v b (by decide +kernel) (by decide +kernel) hm hc hl⟩
 
 end Fdo.Props.C07
